@@ -6,6 +6,9 @@ import signal
 import warnings
 from contextlib import contextmanager
 
+import inspect
+import os
+
 import numpy as np
 
 from .. import abstraction as ab
@@ -111,6 +114,10 @@ def call_query(entry, conc, seed, return_utilities, variant=0, limit=60):
     cand = conc["candidates"]
     if isinstance(cand, np.ndarray):
         cand = cand.copy()
+    if seed % 7 == 3 and "sample_weight" in inspect.signature(qs.query).parameters and "reg" not in kw:
+        # one seventh of the calls weight every training sample with 40: large (weighted) class frequencies, as a
+        # few hundred labeled neighbours would produce (counts of 200-400 where a handful of samples gives 1-10)
+        kw["sample_weight"] = np.full(len(conc["X"]), 40.0)
     with warnings.catch_warnings():
         warnings.simplefilter("ignore")
         with np.errstate(all="ignore"):
@@ -164,6 +171,7 @@ def record_query(entry, sc, seed, return_utilities, variant=0):
     tr["events"] = events
     tr["concrete"] = {"strategy": entry.name, "scenario": sc, "seed": seed, "variant": variant,
                       "return_utilities": return_utilities,
+                      "sample_weight": "40.0 for every sample, if query takes sample_weight" if seed % 7 == 3 else None,
                       "X": conc["X"].tolist(), "y": ["nan" if v != v else v for v in conc["y"].tolist()],
                       "candidates": (conc["candidates"].tolist() if isinstance(conc["candidates"], np.ndarray)
                                      else conc["candidates"]), "batch_size": conc["batch_size"]}
@@ -176,10 +184,18 @@ def scenario_tag(sc):
                                            sc["labpat"][:3])
 
 
+# strategies that are not sample-wise scorers but whose documentation and code accept index candidates that contain
+# labeled samples (DiscriminativeAL labels candidates "0" in its own discriminator problem).  An experiment with
+# VERIF_IDX_ANY_ALL=1 shows that TypiClust, Quire, CoreSet, Badge and SubSamplingWrapper(exclude_non_subsample=True)
+# assume unlabeled candidates (errors / repeated picks otherwise) - outside the envelope of DESIGN.md section 5.
+LABELED_IDX_OK = {"DiscriminativeAL", "DiscriminativeAL(greedy)"}
+
+
 def applicable(entry, sc):
     if sc["mode"] == "rows" and not entry.rows:
         return False
-    if sc["mode"] == "idx-any" and not (entry.samplewise and entry.arbitrary_idx):
+    if sc["mode"] == "idx-any" and not ((entry.samplewise and entry.arbitrary_idx) or entry.name in LABELED_IDX_OK
+                                        or os.environ.get("VERIF_IDX_ANY_ALL")):
         return False
     return True
 
